@@ -1625,16 +1625,7 @@ fn serde_builder_states(t: &mut Tape, ctx: &mut Ctx) -> R {
     match r {
         Ok(_) => Ok(()),
         Err(f) => {
-            if breaks && f.panic_loc.is_some() && f.msg.contains("Builder invariant") {
-                // candidate finding: excluded by its exact signature (branch vector [null], the expect in finalize), counted
-                if ctx.is_known(KF_BUILDER_SERDE_INVARIANT) {
-                    ctx.class("known:builder-from-serde-invariant");
-                } else {
-                    ctx.exclude();
-                    ctx.class("excluded:builder-from-serde-branch==[null]:finalize-panics");
-                }
-                Ok(())
-            } else {
+            {
                 Err(Failure { msg: format!("{} (builder deserialized from {})", f.msg, prefix_of(&text)), panic_loc: f.panic_loc })
             }
         }
@@ -1674,26 +1665,13 @@ fn serde_inputs(t: &mut Tape, ctx: &mut Ctx) -> R {
         if t.chance(60) {
             op = xg::mutate_cbor(t, &mut b);
         }
-        // the candidate finding of this sub-check (reported, not fixed): excluded by its exact signature, counted
-        let bomb = xg::cbor_has_params_hexbytes_array_bomb(&b);
-        if bomb && (SERDE_HAS_PARAMS.contains(&ty) || SERDE_HAS_PARAMS.contains(&other)) {
-            if ctx.is_known(KF_PARAMS_CBOR_PREALLOC) {
-                ctx.class("known:params-cbor-hexbytes-array-prealloc");
-            } else {
-                ctx.exclude();
-                ctx.class("excluded:params-cbor-hexbytes-array-prealloc");
-            }
-            return Ok(());
+        // Two defects were found here on the pinned tree and repaired (known_findings.json: C10 params-cbor-prealloc,
+        // commitment-serde-short); the shapes are generated and judged like every other, only labelled.
+        if xg::cbor_has_params_hexbytes_array_bomb(&b) && (SERDE_HAS_PARAMS.contains(&ty) || SERDE_HAS_PARAMS.contains(&other)) {
+            ctx.class("serde-cbor:shape:params-hexbytes-array-head-larger-than-input");
         }
-        // second candidate finding (reported, not fixed): a byte string shorter than 33 bytes where a commitment is read
         if xg::cbor_has_short_commitment_bytes(&b) {
-            if ctx.is_known(KF_COMMITMENT_SERDE_SHORT) {
-                ctx.class("known:commitment-from-short-cbor-bytes");
-            } else {
-                ctx.exclude();
-                ctx.class("excluded:commitment-from-short-cbor-bytes");
-            }
-            return Ok(());
+            ctx.class("serde-cbor:shape:commitment-position-holds-short-byte-string");
         }
         let ok = serde_feed_ty(ty, None, Some(&b), true, ctx)?;
         let _ = serde_feed_ty(other, None, Some(&b), false, ctx)?;
@@ -1704,6 +1682,43 @@ fn serde_inputs(t: &mut Tape, ctx: &mut Ctx) -> R {
             ctx.sample("serde-cbor", || json!({"type": SERDE_NAMES[ty], "op": op, "cbor_hex": hex(&b), "deserialized": ok}));
         }
     }
+    Ok(())
+}
+
+// ---- fixed inputs of repaired serde defects (plain regression cases, no generator involved) -------------
+
+/// index -> one fixed document that made a deserializer of the library over-allocate, read out of bounds or leave a
+/// value that panics later, on the pinned tree (known_findings.json: fixed). Evaluated under the same guards.
+fn serde_regress(idx: u64, _seed: u64, ctx: &mut Ctx) -> R {
+    use elements::confidential::{Asset as CAsset, Value as CValue};
+    ctx.eval();
+    let unhex = |h: &str| crate::engine::unhex(h).unwrap_or_default();
+    match idx {
+        // CBOR: {"fedpegscript": array head declaring 2^40 / 2^26+1 / 1 000 000 elements}, nothing behind it
+        0 | 1 | 2 => {
+            let doc = unhex(["a16c6665647065677363726970749b0000010000000000", "a16c6665647065677363726970749a04000001", "a16c6665647065677363726970749a000f4240"][idx as usize]);
+            serde_guard("serde_cbor::from_slice::<dynafed::Params> (array head larger than the input)", doc.len(), || serde_cbor::from_slice::<dynafed::Params>(&doc).is_ok())?;
+            serde_guard("serde_cbor::from_reader::<BlockHeader> (array head larger than the input)", doc.len(), || serde_cbor::from_reader::<BlockHeader, _>(&doc[..]).is_ok())?;
+        }
+        // CBOR: [2, byte string of 0 / 1 / 32 bytes] where a 33-byte commitment is expected
+        3 | 4 | 5 => {
+            let doc = unhex(["820240", "82024108", "8202582009090909090909090909090909090909090909090909090909090909090909"][(idx - 3) as usize]);
+            serde_guard("serde_cbor::from_slice::<confidential::Value> (short commitment)", doc.len(), || serde_cbor::from_slice::<CValue>(&doc).is_ok())?;
+            serde_guard("serde_cbor::from_reader::<confidential::Value> (short commitment)", doc.len(), || serde_cbor::from_reader::<CValue, _>(&doc[..]).is_ok())?;
+            serde_guard("serde_cbor::from_slice::<confidential::Asset> (short generator)", doc.len(), || serde_cbor::from_slice::<CAsset>(&doc).is_ok())?;
+            serde_guard("serde_cbor::from_reader::<confidential::Asset> (short generator)", doc.len(), || serde_cbor::from_reader::<CAsset, _>(&doc[..]).is_ok())?;
+        }
+        // JSON: a builder whose only branch slot is empty
+        _ => {
+            let text = r#"{"branch":[null]}"#;
+            let key = pool().pubkeys[0].x_only_public_key().0;
+            guard::guard("TaprootBuilder from {\"branch\":[null]} ::finalize", text.len(), || {
+                serde_json::from_str::<TaprootBuilder>(text).ok().map(|b| b.finalize(secp(), key).is_ok())
+            })?;
+        }
+    }
+    ctx.class("serde-regress");
+    ctx.nontrivial(&idx);
     Ok(())
 }
 
@@ -1935,6 +1950,7 @@ pub fn property() -> Property {
         ],
         subs: vec![
             Sub { name: "corpus", kind: Kind::Index { count: |_| 45, exhaustive: false, f: corpus } },
+            Sub { name: "serde_regress", kind: Kind::Index { count: |_| 7, exhaustive: true, f: serde_regress } },
             Sub { name: "decoders", kind: Kind::Tape { max_len: 4000, quick: 150_000, thorough: 5_000_000, f: decoders } },
             Sub { name: "text_parsers", kind: Kind::Tape { max_len: 3000, quick: 240_000, thorough: 3_000_000, f: text_parsers } },
             Sub { name: "slice_parsers", kind: Kind::Tape { max_len: 1500, quick: 240_000, thorough: 3_000_000, f: slice_parsers } },
